@@ -317,6 +317,7 @@ pub async fn histories(sink: &mut Sink, rng: &mut Rng, kinds: &[&str], n: usize,
         let mut log: Vec<Value> = vec![];
         let mut committed: Vec<(Op, usize, usize)> = vec![]; // (op, read version, version it created)
         let mut broken = false;
+        let mut f12_seen = false; // a stale index stays stale in the later versions of the history
         for (op, stale) in hist {
             let latest = Dataset::open(&uri).await.unwrap();
             let cur_v = latest.version().version as usize;
@@ -356,7 +357,9 @@ pub async fn histories(sink: &mut Sink, rng: &mut Rng, kinds: &[&str], n: usize,
                 }
                 // known finding F14: append after a concurrent add of a non-null column
                 let f14 = matches!(op, Op::Append(_)) && committed.iter().any(|(o, _, cv)| matches!(o, Op::AddColumn) && *cv > rv);
-                let f12 = matches!(op, Op::CreateIndex) && committed.iter().any(|(o, _, cv)| matches!(o, Op::MergePartial(_)) && *cv > rv);
+                let f12_now = matches!(op, Op::CreateIndex) && committed.iter().any(|(o, _, cv)| matches!(o, Op::MergePartial(_)) && *cv > rv);
+                f12_seen |= f12_now;
+                let f12 = f12_seen;
                 let mut actual = scan_safe(&after).await;
                 if plant.as_deref() == Some("e2e") && hi == 3 {
                     if let Ok(t) = actual.as_mut() {
